@@ -13,6 +13,7 @@ RULE = ('one real stack against the reference peer, either role, RTS/CTS and BAM
         'sequence of the peer for 2..6 packets (stack as originator) and every RTS limit 1..npk+1 x max_cmdt {1,2,3,255} (stack as responder); '
         'sampled part: sizes as C01/C02, peer choices (window per CTS, 0-3 holds < 0.5 s, reply latency 0-150 ms, DT spacing < 200 ms, BAM spacing '
         '50-200 / 10-200 ms, RTS limit 1..255) drawn from the seed; non-trivial = a multi-packet transfer completed; distinct = distinct scenario JSON')
+FAULT_COUNTERS = {'legal peer freedom: hold CTS sent by the reference responder': 'holds_sent', 'legal peer freedom: CTS windows chosen by the reference responder': 'cts_sent'}
 REQUIRED_PROBES = ['orig_runs', 'resp_runs', 'holds_sent', 'fd_runs', 'bam_runs']
 S_ADDR_DEFAULT, P_ADDR_DEFAULT = 0x21, 0x42
 
